@@ -652,7 +652,7 @@ public:
 		if (traits && traits->init && traits->init(ptr, 0) >= 0) {
 			return static_cast<T *>(ptr);
 		}
-		return new (ptr) T;
+		return new (ptr) T();
 	}
 	T *get(long pos) const
 	{
